@@ -40,6 +40,7 @@ type Kit struct {
 	ReplaceDQ  bool   // csv/csv2: replace_double_quotes
 	TopArray   bool   // json: top-level array instead of {"recs":[...]}
 	Encoding   string // "" = utf-8 default
+	Filter     string // ModeFilter: the predicate on the target ("" = n!='0')
 }
 
 // NewKit draws a kit for the format.
@@ -199,10 +200,14 @@ func (k *Kit) Schema(mode string) []byte {
 	cols := k.colNames()
 	xp := k.targetXPath()
 	if mode == ModeFilter {
+		f := k.Filter
+		if f == "" {
+			f = "n!='0'"
+		}
 		if xp == "" {
-			xp = ".[n!='0']"
+			xp = ".[" + f + "]"
 		} else {
-			xp += "[n!='0']"
+			xp += "[" + f + "]"
 		}
 	}
 	td := map[string]interface{}{}
@@ -260,7 +265,6 @@ func (k *Kit) Schema(mode string) []byte {
 	b, _ := json.MarshalIndent(doc, "", " ")
 	return b
 }
-
 
 // lineSpec describes one physical line of a (possibly multi-line) flat-file record.
 type lineSpec struct {
